@@ -10,7 +10,7 @@ LAZY  = ((n m) ...)                 `if filename == n: import m`
 MODS  = ((m (ACT ...)) ...)         ACT = (imp m) | (load n)
 PARSE = ((item KIND ((alt ...) ...)) ...) KIND = ok (ok iff every group has a visible member, else err) | err | raise;
         unlisted items: ok
-OPS   = (load n LIM FAULT) | (imp m) | (touch n t) | (edit n (item ...) t) | (reload)
+OPS   = (load n LIM FAULT) | (imp m) | (touch n t) | (edit n (import ...) (item ...) t) | (reload)
 LIM   = none | start | (item i);  FAULT = none | i
 RES   = ok | cycle | key | order | parse | limit | fuel;  THY = none | (item ...)
 EV    = (read n) | (exec m) | meta
@@ -61,7 +61,7 @@ def opOf : Sexp → Option Op
   | .list [.atom "load", n, l, f] => do some (.load (← n.toNat?) (← limOf l) (← faultOf f))
   | .list [.atom "imp", m] => do some (.imp (← m.toNat?))
   | .list [.atom "touch", n, t] => do some (.touch (← n.toNat?) (← t.toNat?))
-  | .list [.atom "edit", n, its, t] => do some (.edit (← n.toNat?) (← natsOf its) (← t.toNat?))
+  | .list [.atom "edit", n, is, its, t] => do some (.edit (← n.toNat?) (← natsOf is) (← natsOf its) (← t.toNat?))
   | .list [.atom "reload"] => some .reloadMeta
   | _ => none
 
